@@ -1,4 +1,5 @@
 from ._common import STD_TRUST
+from ._links import with_links
 
 
 def _extra(ctx, spec):
@@ -13,7 +14,11 @@ def _extra(ctx, spec):
 PROP = dict(
     level='proof',
     regen=['crctable', 'consts', 'integconsts', 'decapiconsts', 'decapistdfac'],
-    extra=_extra,
+    # link theorems between the decoder models this property composes with (additive: checklib/props/_links.py)
+    extra=with_links(_extra, ['Fit.Links.Link_decprog_eq_api',
+                             'Fit.Links.Link_chunk_indep_api_two',
+                             'Fit.Links.Link_stdFactory_ok'],
+                     crosscheck=[('dechist', 'linkdecapi')]),
     theorems=['Fit.C07.C07_decode_from_clean', 'Fit.C07.C07_boundary_clean', 'Fit.C07.C07_reset_is_new', 'Fit.C07.C07_integrity_check_is_new',
               'Fit.C07.C07_history_indep', 'Fit.C07.C07_rejected_everywhere', 'Fit.C07.C07_decode_ignores_tail', 'Fit.C07.C07_peek_transparent',
               'Fit.C07.C07_former_witnesses'],
